@@ -1,6 +1,12 @@
 import Ufw.Props.C06
+import Ufw.Tie.Regp
 #print axioms Ufw.Props.C06.process_write
 #print axioms Ufw.Props.C06.process_read
 #print axioms Ufw.Props.C06.process_read_overflow
 #print axioms Ufw.Props.C06.process_wordsize
 #print axioms Ufw.Props.C06.process_ignores
+#print axioms Ufw.Tie.Regp.const_header_sizes
+#print axioms Ufw.Tie.Regp.const_options
+#print axioms Ufw.Tie.Regp.const_frame_types
+#print axioms Ufw.Tie.Regp.const_response_codes
+#print axioms Ufw.Tie.Regp.const_value_codes
